@@ -89,6 +89,9 @@ def mk_stage(d, spec):
         return d.MonochromaticReduction(color="gray")
     if spec[0] == "negkey":
         return d.MonochromaticReduction(color="negative-key")
+    if spec[0] == "hsv":
+        return d.MonochromaticReduction(color="hsv", **{"hue lower bound": spec[1], "hue upper bound": spec[2],
+                                                        "saturation lower bound": spec[3], "saturation upper bound": spec[4]})
     if spec[0] == "affine":
         return d.LinearModel(scaling=spec[1], offset=spec[2])
     if spec[0] == "clip":
@@ -181,10 +184,11 @@ def correspondence(ctx, d):
         n_upd = ctx.rng.randint(1, 2) if ctx.rng.random() < 0.35 else 0
         scribble = ctx.rng.random() < 0.4
         fdt = ctx.rng.choice([np.float64, np.float64, np.float32])  # dyadic values: float32 arithmetic is exact as well
-        base = rand_image(ctx, d, kind, shape, fdt)
-        extras = [rand_image(ctx, d, kind, shape, fdt) for _ in range(n_extra)]
-        updates = [rand_image(ctx, d, kind, shape, fdt) for _ in range(n_upd)]
-        probe = rand_image(ctx, d, kind, shape, fdt) if ctx.rng.random() < 0.9 else (updates[-1] if updates else base).copy()
+        lo = ctx.rng.choice([0, 0, -16])  # signed images too (scalar signals may be negative; matters without a baseline)
+        base = rand_image(ctx, d, kind, shape, fdt, lo=lo)
+        extras = [rand_image(ctx, d, kind, shape, fdt, lo=lo) for _ in range(n_extra)]
+        updates = [rand_image(ctx, d, kind, shape, fdt, lo=lo) for _ in range(n_upd)]
+        probe = rand_image(ctx, d, kind, shape, fdt, lo=lo) if ctx.rng.random() < 0.9 else (updates[-1] if updates else base).copy()
         log = []
         an = build(d, cfg, ([base] + extras) if has_base else None, log, scribble=scribble)
         req = (f"call {cfg['opt']} {int(cfg['first'])} {kind} " + (show_arr(base.img) if has_base else "none")
@@ -514,13 +518,18 @@ def oracle(ctx, d):
         shape = (ctx.rng.randint(1, 7), ctx.rng.randint(1, 7))
         base = rand_image(ctx, d, kind, shape, dtype, dyadic=False)
         probe = rand_image(ctx, d, kind, shape, dtype, dyadic=False)
+        no_base = ctx.rng.random() < 0.35  # the documented default: an analysis without baseline
+        if np.dtype(dtype).kind == "f" and ctx.rng.random() < 0.6:
+            probe.img -= probe.img.dtype.type(0.5)  # signed signal
+            base.img -= base.img.dtype.type(0.25)
         out = {}
-        case = dict(dtype=np.dtype(dtype).name, kind=kind, shape=list(shape), base=base.img.tolist() if base.img.size <= 32 else None,
+        case = dict(dtype=np.dtype(dtype).name, kind=kind, shape=list(shape), baseline=not no_base,
+                    base=base.img.tolist() if base.img.size <= 32 else None,
                     probe=probe.img.tolist() if probe.img.size <= 32 else None)
         ctx.count(("diffs", kind, np.dtype(dtype).name, shape, rep))
         bad = False
         for opt in OPTS:
-            an = call(lambda: d.ConcentrationAnalysis(base, **{"diff option": opt}))
+            an = call(lambda: d.ConcentrationAnalysis(None if no_base else base, **{"diff option": opt}))
             r = an if isinstance(an, Raised) else call(lambda: an(probe))
             if isinstance(r, Raised):
                 ctx.fail(f"C13:call-raises({type(r.exc).__name__},dtype={case['dtype']},kind={kind})", f"analysis raises {r.exc!r}", dict(case, opt=opt))
@@ -530,11 +539,12 @@ def oracle(ctx, d):
         if bad:
             continue
         tol = dict(rtol=0, atol=1e-6)
+        nb = ",no-baseline" if no_base else ""
         if not np.allclose(out["positive"] + out["negative"], out["absolute"], **tol):
-            ctx.fail(f"C13:pos+neg!=abs(dtype={case['dtype']})", "positive part + negative part differs from the absolute difference", case)
+            ctx.fail(f"C13:pos+neg!=abs(dtype={case['dtype']}{nb})", "positive part + negative part differs from the absolute difference", case)
         if not np.allclose(out["positive"] - out["negative"], out["plain"], **tol):
-            ctx.fail(f"C13:pos-neg!=plain(dtype={case['dtype']})", "positive part - negative part differs from the plain difference", case)
-        ref = to_float(probe).astype(np.float64) - to_float(base).astype(np.float64)
+            ctx.fail(f"C13:pos-neg!=plain(dtype={case['dtype']}{nb})", "positive part - negative part differs from the plain difference", case)
+        ref = to_float(probe).astype(np.float64) - (0.0 if no_base else to_float(base).astype(np.float64))
         if not np.allclose(out["plain"], ref, **tol):
             ctx.fail(f"C13:plain-difference-wrong(dtype={case['dtype']})",
                      "plain difference is not probe - baseline on the promoted values (wrap-around / missing promotion)",
@@ -551,8 +561,13 @@ def reduction_tie(ctx, d):
 
     lines, cases = [], []
     for n in range(ctx.pick(150, 1500)):
-        red = ctx.rng.choice([("gray",), ("gray",), ("negkey",), ("chan", 0), ("chan", 1), ("chan", 2), ("chanAdd", 0, 1)])
+        red = ctx.rng.choice([("gray",), ("gray",), ("negkey",), ("chan", 0), ("chan", 1), ("chan", 2), ("chanAdd", 0, 1), "hsv", "hsv"])
         opt = ctx.rng.choice(OPTS)
+        if red == "hsv":
+            # user windows for hue (skimage: hue in [0, 1)) and saturation; the difference must be non-negative for rgb2hsv
+            red = ("hsv", ctx.rng.choice([0.0, 0.125, 0.5]), ctx.rng.choice([0.75, 1.0, 360.0]), ctx.rng.choice([0.0, 0.25]),
+                   ctx.rng.choice([0.5, 0.75, 1.0]))
+            opt = ctx.rng.choice(["positive", "negative", "absolute"])
         shape = (ctx.rng.randint(1, 4), ctx.rng.randint(1, 4))
         base = rand_image(ctx, d, "OpticalImage", shape, hi=4)
         probe = rand_image(ctx, d, "OpticalImage", shape, hi=4)
@@ -564,6 +579,8 @@ def reduction_tie(ctx, d):
         cfg = dict(opt=opt, first=True, reduction=red, balancing=None, restoration=None, model=None)
         req = (f"call {opt} 1 OpticalImage {show_arr(base.img)} {n_extra} " + " ".join(show_arr(e.img) for e in extras) + " 0 "
                + show_arr(probe.img) + " 0 " + " ".join(show_stage(cfg[k]) if cfg[k] is None or len(cfg[k]) > 1 else cfg[k][0] for k in ORDER))
+        if n_extra and red[0] == "hsv":
+            pass
         lines.append(" ".join(req.split()))
         cases.append((cfg, base, extras, probe))
     got = ctx.model(lines)
@@ -573,7 +590,7 @@ def reduction_tie(ctx, d):
         log = []
         an = build(d, cfg, [base] + extras, log)
         res = an if isinstance(an, Raised) else call(lambda: an(probe))
-        case = dict(reduction=cfg["reduction"][0] + "".join(str(x) for x in cfg["reduction"][1:]), opt=cfg["opt"], base=base.img.tolist(),
+        case = dict(reduction=cfg["reduction"][0], reduction_parameters=list(cfg["reduction"][1:]), opt=cfg["opt"], base=base.img.tolist(),
                     probe=probe.img.tolist(), extras=[e.img.tolist() for e in extras])
         if isinstance(res, Raised):
             ctx.fail(f"C13:call-raises({type(res.exc).__name__},dtype=float64,kind=OpticalImage)", f"analysis raises {res.exc!r}", case)
@@ -592,7 +609,7 @@ def reduction_tie(ctx, d):
         if dev > 1e-5:
             ctx.fail(f"C13:reduction({case['reduction']}):differs-from-documented-reduction",
                      f"the analysis with signal reduction '{case['reduction']}' deviates by {dev:.3g} from the documented reduction of the "
-                     "difference (for gray: 0.299 R + 0.587 G + 0.114 B)", dict(case, max_dev=dev, observed=vals.tolist(), required=[float(e) for e in exact]))
+                     "difference (gray: 0.299 R + 0.587 G + 0.114 B; hsv: value inside the hue / saturation windows)", dict(case, max_dev=dev, observed=vals.tolist(), required=[float(e) for e in exact]))
     ctx.cov["reduction_max_float_error"] = worst
 
 
